@@ -153,6 +153,30 @@ func pkgPathOf(f *ssa.Function) string {
 	return ""
 }
 
+var implCache = map[*types.Func][]*ssa.Function{}
+
+// implementersOfCall resolves an interface call to the module methods that can
+// be its target (CHA over the module's named types).
+func (p *Prog) implementersOfCall(cc *ssa.CallCommon) []*ssa.Function {
+	if r, ok := implCache[cc.Method]; ok {
+		return r
+	}
+	var out []*ssa.Function
+	iface, _ := cc.Value.Type().Underlying().(*types.Interface)
+	if iface != nil {
+		for _, f := range p.Funcs {
+			if f.Parent() != nil || f.Signature.Recv() == nil || f.Name() != cc.Method.Name() {
+				continue
+			}
+			if types.Implements(f.Signature.Recv().Type(), iface) {
+				out = append(out, f)
+			}
+		}
+	}
+	implCache[cc.Method] = out
+	return out
+}
+
 // implementers resolves an interface call to the module methods that can be
 // its target (CHA over the module's named types).
 func (s *sinkSet) implementers(cc *ssa.CallCommon) []*ssa.Function {
